@@ -23,9 +23,12 @@ pub enum Local {
     ActorStopped,
     /// (accepting side only) the accept callback declines
     Decline,
+    /// the store actor is shut down WHILE the session runs: the shutdown request is issued together
+    /// with the session, so that requests of the session get queued behind it
+    StopDuring,
 }
 fn local_n(l: Local) -> u8 {
-    match l { Local::Healthy => 0, Local::SyncDisabled => 1, Local::ReplicaClosed => 2, Local::ActorStopped => 3, Local::Decline => 4 }
+    match l { Local::Healthy => 0, Local::SyncDisabled => 1, Local::ReplicaClosed => 2, Local::ActorStopped => 3, Local::Decline => 4, Local::StopDuring => 5 }
 }
 
 async fn side(ns: &NamespaceSecret, author: &iroh_docs::Author, keys: &[&[u8]], failure: Local) -> anyhow::Result<SyncHandle> {
@@ -38,7 +41,7 @@ async fn side(ns: &NamespaceSecret, author: &iroh_docs::Author, keys: &[&[u8]], 
         sync.insert_local(ns.id(), author.id(), bytes::Bytes::copy_from_slice(k), iroh_blobs::Hash::from_bytes(HASH_A), 1).await?;
     }
     match failure {
-        Local::Healthy | Local::Decline => {}
+        Local::Healthy | Local::Decline | Local::StopDuring => {}
         Local::SyncDisabled => sync.set_sync(ns.id(), false).await?,
         Local::ReplicaClosed => { sync.close(ns.id()).await?; }
         Local::ActorStopped => { sync.shutdown().await?; }
@@ -49,8 +52,8 @@ async fn side(ns: &NamespaceSecret, author: &iroh_docs::Author, keys: &[&[u8]], 
 /// One case; returns the Coq term and the JSON description.
 pub async fn net_case(rng: &mut Rng, stats: &mut Stats) -> anyhow::Result<(String, String)> {
     let w = World::new(rng.next(), 1);
-    let fa = *rng.pick(&[Local::Healthy, Local::Healthy, Local::SyncDisabled, Local::ReplicaClosed, Local::ActorStopped]);
-    let fb = *rng.pick(&[Local::Healthy, Local::Healthy, Local::Healthy, Local::SyncDisabled, Local::ReplicaClosed, Local::ActorStopped, Local::Decline]);
+    let fa = *rng.pick(&[Local::Healthy, Local::Healthy, Local::SyncDisabled, Local::ReplicaClosed, Local::ActorStopped, Local::StopDuring]);
+    let fb = *rng.pick(&[Local::Healthy, Local::Healthy, Local::Healthy, Local::SyncDisabled, Local::ReplicaClosed, Local::ActorStopped, Local::Decline, Local::StopDuring, Local::StopDuring]);
     let keys_a: Vec<&[u8]> = [&b"a"[..], b"b", b"c"][..rng.below(4) as usize].to_vec();
     let keys_b: Vec<&[u8]> = [&b"b"[..], b"d"][..rng.below(3) as usize].to_vec();
     let alice = side(&w.ns, &w.authors[0], &keys_a, fa).await?;
@@ -60,18 +63,38 @@ pub async fn net_case(rng: &mut Rng, stats: &mut Stats) -> anyhow::Result<(Strin
     let bob_addr = bob_ep.addr();
     verif::set_clock(T0 + 10);
     let decline = fb == Local::Decline;
+    let stop_b = fb == Local::StopDuring;
+    let id_b = w.ns_id();
     let accept_task = tokio::spawn({
         let bob_ep = bob_ep.clone();
         let bob = bob.clone();
         async move {
             let incoming = bob_ep.accept().await?;
             let conn = incoming.await.ok()?;
+            if stop_b {
+                // other requests keep the actor busy, the shutdown request is sent, and the session starts:
+                // its requests queue up behind the shutdown
+                let (b1, b2, b3) = (bob.clone(), bob.clone(), bob.clone());
+                let busy = async move { for _ in 0..8 { let _ = b1.get_state(id_b).await; } };
+                let stop = async move { tokio::task::yield_now().await; let _ = b2.shutdown().await; };
+                let sess = handle_connection(b3, conn, move |_ns, _peer| std::future::ready(AcceptOutcome::Allow), None);
+                let (_, _, r) = tokio::join!(busy, stop, sess);
+                return Some(r);
+            }
             Some(handle_connection(bob, conn, move |_ns, _peer| std::future::ready(if decline { AcceptOutcome::Reject(AbortReason::AlreadySyncing) } else { AcceptOutcome::Allow }), None).await)
         }
     });
     let id = w.ns_id();
     let session = async {
-        let c = connect_and_sync(&alice_ep, &alice, id, bob_addr, None).await;
+        let c = if fa == Local::StopDuring {
+            let (a1, a2) = (alice.clone(), alice.clone());
+            let busy = async move { for _ in 0..8 { let _ = a1.get_state(id).await; } };
+            let stop = async move { tokio::task::yield_now().await; let _ = a2.shutdown().await; };
+            let (_, _, c) = tokio::join!(busy, stop, connect_and_sync(&alice_ep, &alice, id, bob_addr, None));
+            c
+        } else {
+            connect_and_sync(&alice_ep, &alice, id, bob_addr, None).await
+        };
         let a = accept_task.await;
         (c, a)
     };
